@@ -12,6 +12,13 @@
 #include <shark/Models/Kernels/LinearKernel.h>
 #include <shark/Models/Kernels/PolynomialKernel.h>
 #include <shark/Models/Kernels/KernelHelpers.h>
+#include <shark/Models/Kernels/NormalizedKernel.h>
+#include <shark/Models/Kernels/GaussianRbfKernel.h>
+#include <shark/Models/Kernels/ScaledKernel.h>
+#include <shark/Models/Kernels/WeightedSumKernel.h>
+#include <shark/Models/Kernels/ProductKernel.h>
+#include <shark/Models/ConcatenatedModel.h>
+#include <shark/ObjectiveFunctions/Loss/CrossEntropy.h>
 #include <shark/LinAlg/KernelMatrix.h>
 #include <shark/Algorithms/NearestNeighbors/SimpleNearestNeighbors.h>
 #include <shark/Algorithms/DirectSearch/Operators/Hypervolume/HypervolumeContributionMD.h>
@@ -130,6 +137,31 @@ int main(){
 			RealVector kp = k.parameterVector();
 			sweep("KernelTargetAlignment.eval", reps, [&]{ return bits(kta.eval(kp)); });
 			sweepTol("KernelTargetAlignment.evalDerivative", reps, [&]{ RealVector g; double v = kta.evalDerivative(kp, g); std::vector<double> r(1, v); for(std::size_t i = 0; i != g.size(); ++i) r.push_back(g(i)); return r; });
+		}
+		{	// every kind of kernel inside the parallel Gram / row regions (values are not exactly representable:
+			// the comparison allows floating-point reassociation; a shared scratch buffer shows as a large
+			// difference and, under ThreadSanitizer, as a race)
+			PolynomialKernel<RealVector> pk(2, 1.0, false); LinearKernel<RealVector> lin; GaussianRbfKernel<RealVector> gk(0.25);
+			NormalizedKernel<RealVector> nk(&pk); ScaledKernel<RealVector> sk(&pk, 2.0);
+			std::vector<AbstractKernelFunction<RealVector>*> parts; parts.push_back(&pk); parts.push_back(&gk);
+			WeightedSumKernel<RealVector> wk(parts); ProductKernel<RealVector> prk(&lin, &gk);
+			AbstractKernelFunction<RealVector>* ks[] = {&nk, &gk, &sk, &wk, &prk};
+			char const* names[] = {"Gram[normalized]", "Gram[gaussian]", "Gram[scaled]", "Gram[weightedsum]", "Gram[product]"};
+			for(int q = 0; q != 5; ++q){
+				AbstractKernelFunction<RealVector>* kk = ks[q];
+				sweepTol(names[q], reps, [&]{ RealMatrix K = calculateRegularizedKernelMatrix(*kk, inputs, 0.5); std::vector<double> r; for(std::size_t i = 0; i != K.size1(); ++i) for(std::size_t j = 0; j != K.size2(); ++j) r.push_back(K(i,j)); return r; });
+			}
+			KernelMatrix<RealVector,double> km(nk, inputs);
+			sweepTol("KernelMatrix.row[normalized]", reps, [&]{ std::vector<double> st(n), r; for(std::size_t i = 0; i < n; i += (n/3)+1){ km.row(i, 0, n, &st[0]); r.insert(r.end(), st.begin(), st.end()); } return r; });
+		}
+		{	// a non-linear two-layer model and a cross-entropy loss inside the ErrorFunction regions
+			LinearModel<RealVector, TanhNeuron> l1(d, 3, true); LinearModel<RealVector> l2(3, 3, true);
+			ConcatenatedModel<RealVector> net = l1 >> l2;
+			RealVector q(net.numberOfParameters());
+			for(std::size_t i = 0; i != q.size(); ++i) q(i) = (double(rng.below(9)) - 4.0) / 4.0;
+			CrossEntropy<unsigned int, RealVector> ce;
+			ErrorFunction<> E(cl, &net, &ce);
+			sweepTol("ErrorFunction[tanh-net,cross-entropy]", reps, [&]{ RealVector g; double v = E.evalDerivative(q, g); std::vector<double> r(1, v); r.push_back(E.eval(q)); for(std::size_t i = 0; i != g.size(); ++i) r.push_back(g(i)); return r; });
 		}
 		{	sweep("transform(element-wise)", reps, [&]{ Data<RealVector> r = transform(inputs, AddOne()); std::string s; for(std::size_t b = 0; b != r.numberOfBatches(); ++b) s += matbits(r.batch(b)) + ";"; return s; });
 			sweep("transform(batch-wise)", reps, [&]{ Data<RealVector> r = transform(inputs, BatchDouble()); std::string s; for(std::size_t b = 0; b != r.numberOfBatches(); ++b) s += matbits(r.batch(b)) + ";"; return s; });
